@@ -8,7 +8,7 @@ function no longer finds it.  This pass undoes exactly that: a function that
   * lives in the same module as its callers (its definition stays; only same-module call sites are rewritten), is not recursive,
     takes plain parameters (no *args / **kwargs) and is small enough to be understood as one of the three forms below,
 
-is substituted at its call sites (inlining bound: two rounds, i.e. a new helper may call another new helper):
+is substituted at its call sites (inlining bound: three rounds, i.e. new helpers may call new helpers two levels deep):
 
   E  expression helper:   [docstring] [x = <expr>]* [if <c>: return <e>]* return <e>
      -> the call becomes one (conditional) expression with the locals substituted
@@ -336,6 +336,7 @@ class _Inliner(ast.NodeTransformer):
         self.uid = 0
         self.res_used: Dict[str, int] = {}
         self.instances: Dict[Tuple[int, str], int] = {}
+        self.prologue: List[ast.stmt] = []
 
     # -- context
     def visit_ClassDef(self, n):
@@ -383,7 +384,7 @@ class _Inliner(ast.NodeTransformer):
         return ast.copy_location(e, n)
 
     # -- statement level (forms S, A)
-    def _renaming(self, t: _Template, fuse: Optional[Tuple[str, str]] = None) -> Dict[str, str]:
+    def _renaming(self, t: _Template, fuse: Optional[Tuple[str, str]] = None, m: Optional[Dict[str, ast.expr]] = None) -> Dict[str, str]:
         """helper locals -> caller-side names: `x__helper` for the first instance inside a function, `x__helper_2`, ... for later ones;
         `fuse` = (helper local, caller name) lets the helper's result variable become the caller's target directly"""
         key = (id(self.fn[-1]) if self.fn else 0, t.name)
@@ -393,6 +394,14 @@ class _Inliner(ast.NodeTransformer):
         ren = {x: f"{x}{suffix}" for x in _locals_of(t.stmts, set(t.params))}
         if fuse is not None and fuse[0] in ren:
             ren[fuse[0]] = fuse[1]
+        # a parameter the helper re-binds is a local that starts with the argument's value
+        self.prologue = []
+        if m is not None:
+            stored = {n.id for s_ in t.stmts for n in ast.walk(s_) if isinstance(n, ast.Name) and isinstance(n.ctx, (ast.Store, ast.Del)) and n.id in m}
+            for p_ in sorted(stored):
+                arg = m.pop(p_)
+                ren[p_] = f"{p_}{suffix}"
+                self.prologue.append(ast.Assign(targets=[ast.Name(id=ren[p_], ctx=ast.Store())], value=copy.deepcopy(arg)))
         return ren
 
     def _splice(self, t: _Template, call: ast.Call, recv, at: ast.stmt, target: Optional[str] = None):
@@ -406,9 +415,9 @@ class _Inliner(ast.NodeTransformer):
             used = {n.id for a in m.values() for n in ast.walk(a) if isinstance(n, ast.Name)}
             if target not in used and target not in _locals_of(t.stmts, set(t.params)):
                 fuse = (t.result.id, target)
-        ren = self._renaming(t, fuse)
+        ren = self._renaming(t, fuse, m)
         sub = _Subst(m, ren)
-        stmts = [ast.copy_location(sub.visit(copy.deepcopy(s)), at) for s in t.stmts]
+        stmts = [ast.copy_location(s_, at) for s_ in self.prologue] + [ast.copy_location(sub.visit(copy.deepcopy(s)), at) for s in t.stmts]
         for s in stmts:
             for x in ast.walk(s):
                 if hasattr(x, "lineno"):
@@ -467,9 +476,9 @@ class _Inliner(ast.NodeTransformer):
         m = _bind(t, call, recv)
         if m is None:
             return None
-        ren = self._renaming(t)
+        ren = self._renaming(t, None, m)
         sub = _Subst(m, ren)
-        stmts = [sub.visit(copy.deepcopy(s)) for s in t.stmts]
+        stmts = list(self.prologue) + [sub.visit(copy.deepcopy(s)) for s in t.stmts]
         for s_ in stmts:
             for x in ast.walk(s_):
                 if hasattr(x, "lineno"):
@@ -498,9 +507,9 @@ class _Inliner(ast.NodeTransformer):
         m = _bind(t, call, recv)
         if m is None:
             return None
-        ren = self._renaming(t)
+        ren = self._renaming(t, None, m)
         sub = _Subst(m, ren)
-        out = [sub.visit(copy.deepcopy(s)) for s in stmts]
+        out = list(self.prologue) + [sub.visit(copy.deepcopy(s)) for s in stmts]
         for s_ in out:
             for x in ast.walk(s_):
                 if hasattr(x, "lineno"):
@@ -556,6 +565,41 @@ class _Inliner(ast.NodeTransformer):
                     and id(n) not in inside and id(n) not in anc:
                 return False
         return True
+
+    def _expand_comprehension(self, st):
+        """`x = [helper(a) for t in X if C]` / `return [helper(a) ...]` with a statement-form helper (A): the inverse of the accumulate-loop normal
+        form - an explicit loop whose body is the helper's statements followed by `x.append(<result>)`"""
+        if isinstance(st, ast.Assign) and len(st.targets) == 1 and isinstance(st.targets[0], ast.Name):
+            comp, out_name, is_ret = st.value, st.targets[0].id, False
+        elif isinstance(st, ast.Return) and st.value is not None:
+            comp, out_name, is_ret = st.value, None, True
+        else:
+            return None
+        if not (isinstance(comp, ast.ListComp) and len(comp.generators) == 1 and not comp.generators[0].is_async and isinstance(comp.elt, ast.Call)):
+            return None
+        t, recv = self._lookup(comp.elt)
+        if t is None or t.form != "A" or self._inside_own_body(t):
+            return None
+        g = comp.generators[0]
+        if out_name is None:
+            self.res_used["<comp>"] = self.res_used.get("<comp>", 0) + 1
+            out_name = f"collected__{t.name.strip('_')}" + ("" if self.res_used["<comp>"] == 1 else f"_{self.res_used['<comp>']}")
+        sp = self._splice(t, comp.elt, recv, st)
+        if sp is None:
+            return None
+        stmts, res = sp
+        guards = [ast.copy_location(ast.If(test=ast.UnaryOp(op=ast.Not(), operand=c), body=[ast.Continue()], orelse=[]), st) for c in g.ifs]
+        app = ast.Expr(value=ast.Call(func=ast.Attribute(value=ast.Name(id=out_name, ctx=ast.Load()), attr="append", ctx=ast.Load()), args=[res], keywords=[]))
+        loop = ast.For(target=g.target, iter=g.iter, body=guards + stmts + [app], orelse=[])
+        init = ast.Assign(targets=[ast.Name(id=out_name, ctx=ast.Store())], value=ast.List(elts=[], ctx=ast.Load()))
+        new = [init, loop] + ([ast.Return(value=ast.Name(id=out_name, ctx=ast.Load()))] if is_ret else [])
+        for n_ in new:
+            ast.copy_location(n_, st)
+            for x in ast.walk(n_):
+                if not hasattr(x, "lineno") and isinstance(x, (ast.stmt, ast.expr)):
+                    ast.copy_location(x, st)
+            ast.fix_missing_locations(n_)
+        return new
 
     def _hoist(self, st):
         """statement with one call of a form-R helper evaluated first -> structured helper statements + the statement reading the result variable"""
@@ -623,6 +667,11 @@ class _Inliner(ast.NodeTransformer):
                             self.count += 1
                             out.extend(repl)
                             continue
+            expanded = self._expand_comprehension(st)
+            if expanded is not None:
+                self.count += 1
+                out.extend(expanded)
+                continue
             hoisted = self._hoist(st)
             if hoisted is not None:
                 self.count += 1
@@ -681,7 +730,7 @@ def inline_new_helpers(tree: ast.Module, rel: str) -> Tuple[ast.Module, List[str
     if base is None or os.environ.get("SA_NO_INLINE"):
         return tree, []
     done: List[str] = []
-    for _round in range(2):
+    for _round in range(3):
         funcs = _functions(tree)
         templates: Dict[str, _Template] = {}
         names_seen: Dict[str, int] = {}
